@@ -608,6 +608,17 @@ func oracleC02(c *DriveCtx, res *Result) {
 			// fault class: only a post that still reports success is judged (a swallowed Database error shows as wrong recipients);
 			// a failed Dereference is part of the world the model sees
 			if t.Err != nil {
+				// ... except that a recipient which cannot be fetched - whatever error the transport reports for it - is
+				// skipped: when fetches are all that was made to fail, the delivery may not fail because of them
+				onlyFetch := true
+				for _, f := range res.Spec.Faults {
+					if (strings.HasPrefix(f.Site, t.ID+"|") || strings.HasPrefix(f.Site, t.ID+".")) && !strings.HasPrefix(f.Site, t.ID+"|tp.Dereference|") {
+						onlyFetch = false
+					}
+				}
+				if onlyFetch && !nestedFailure(res, t) && senderComplete(res, t) && s.World.Servers[t.Srv].Spec.Federating {
+					s.violate("C02", "delivery-failed", "deliver:fetch-error", fmt.Sprintf("%s failed with %q although only a recipient's Dereference was made to fail; recipients that cannot be fetched are skipped", t.ID, trunc(t.Err.Error(), 120)))
+				}
 				continue
 			}
 			s.probe("c02-accepted-despite-fault")
